@@ -5,6 +5,11 @@
  *   blockni <key> <blk>...    -> ok <ct>...     crypto_aes_key_expand_aesni / _encrypt_block_aesni / _free_aesni
  *                                               called directly (no self-test gate); "unsupported" if not built in
  *   ctr <tok>...              -> ok <out>...    see aes_main.ml for the tokens
+ *   big <key> <nonce> <len1> <len2> <tail1>
+ *                             -> ok <last tail1 bytes written by the first call> <the len2 bytes of the second>
+ *                                one stream: ONE crypto_aesctr_stream call of len1 zero bytes, in place, on a
+ *                                calloc block (len1 may exceed 2^32: the counters of one call are then
+ *                                beyond 32 bits), then a call of len2 zero bytes; "nomem" if calloc fails
  *
  *   token J<pos> of a ctr script is NOT a library call: it writes stream->bytectr = pos (hex, multiple
  *   of 16) right after an init; with pblk[15] still 0xff the next cipherblock is generated from the
@@ -360,6 +365,37 @@ do_ctr(char ** tok, int n)
 	printf("\n");
 }
 
+static void
+do_big(char ** tok)
+{
+	size_t klen; uint8_t * key = drv_unhex(tok[1], &klen, 0);
+	uint64_t nonce = parse_nonce(tok[2]);
+	size_t len1 = (size_t)strtoull(tok[3], NULL, 10);
+	size_t len2 = (size_t)strtoull(tok[4], NULL, 10);
+	size_t tail1 = (size_t)strtoull(tok[5], NULL, 10);
+	struct crypto_aes_key * k = expand(key, klen);
+	struct crypto_aesctr * stream = NULL;
+	uint8_t * buf = calloc(len1 ? len1 : 1, 1);
+	uint8_t * in2 = calloc(len2 ? len2 : 1, 1);
+	uint8_t * out2 = malloc(len2 ? len2 : 1);
+
+	if (buf == NULL || in2 == NULL || out2 == NULL || tail1 > len1) {
+		printf("nomem\n");
+	} else {
+		LIB("ctr", NULL, stream = crypto_aesctr_init(k, nonce));
+		crypto_aesctr_stream(stream, buf, buf, len1);
+		crypto_aesctr_stream(stream, in2, out2, len2);
+		printf("ok");
+		emit(buf + (len1 - tail1), tail1);
+		emit(out2, len2);
+		printf("\n");
+		crypto_aesctr_free(stream);
+	}
+	free(buf); free(in2); free(out2);
+	crypto_aes_key_free(k);
+	free(key);
+}
+
 int
 main(int argc, char ** argv)
 {
@@ -388,6 +424,8 @@ main(int argc, char ** argv)
 			do_block(tok, n, 1);
 		else if (n >= 1 && strcmp(tok[0], "ctr") == 0)
 			do_ctr(tok, n);
+		else if (n == 6 && strcmp(tok[0], "big") == 0)
+			do_big(tok);
 		else
 			printf("bad-case\n");
 	}
